@@ -302,32 +302,18 @@ func (store *HStore) VerifWaitIdle() {
 }
 
 // VerifWaitOpen waits for the background hint check that open() starts for the
-// chunks below the loaded tree id.
-func (store *HStore) VerifWaitOpen() {
+// chunks below the loaded tree id (signalled by verifPoint "open.bgcheck.done";
+// the caller resets the counter before NewHStore and passes a reader for it).
+func (store *HStore) VerifWaitOpen(done func() int) {
+	n := 0
 	for _, b := range store.buckets {
-		if b.State != BUCKET_STAT_READY || b.datas == nil {
-			continue
-		}
-		for i := 0; i < b.TreeID.Chunk; i++ {
-			for {
-				ck := b.hints.chunks[i]
-				ck.Lock()
-				n := len(ck.splits)
-				done := n >= 2
-				for _, sp := range ck.splits[:n-1] {
-					if sp.file == nil {
-						done = false
-					}
-				}
-				ck.Unlock()
-				if b.datas.chunks[i].size == 0 || done {
-					break
-				}
-				time.Sleep(200 * time.Microsecond)
-			}
+		if b.State == BUCKET_STAT_READY && b.datas != nil {
+			n++
 		}
 	}
-	time.Sleep(2 * time.Millisecond)
+	for done() < n {
+		time.Sleep(200 * time.Microsecond)
+	}
 }
 
 // VerifHintDump does what one round of the hint dumper does.
